@@ -1,14 +1,15 @@
 #!/usr/bin/env python3
 """Run every claimed quick check on the current tree, validate evidence against the schema, print a table."""
-import json, subprocess, sys, time
-m = json.load(open('/verif/MANIFEST.json'))
+import json, os, subprocess, sys, time
+HERE = os.path.dirname(os.path.dirname(os.path.abspath(__file__)))
+m = json.load(open(os.path.join(HERE, 'MANIFEST.json')))
 rows = []
 for c in m['checks']:
     t0 = time.time()
     cmd = c['thorough_cmd'] if '--thorough' in sys.argv else c['quick_cmd']
-    p = subprocess.run(cmd, shell=True, cwd='/verif', capture_output=True, text=True)
+    p = subprocess.run(cmd, shell=True, cwd=HERE, capture_output=True, text=True)
     lines = [l for l in p.stdout.splitlines() if l.startswith(('VIOLATION', 'KNOWN'))]
-    ev = json.load(open(c['evidence_file']))
+    ev = json.load(open(os.path.join(HERE, 'evidence', c['property_id'] + '.json')))
     cov = ev['coverage']
     rows.append((c['property_id'], p.returncode, round(time.time() - t0, 1), cov.get('obligations'), cov.get('discharged'),
                  cov.get('evaluations'), cov.get('distinct_nontrivial'), [l[:60] for l in lines]))
@@ -17,7 +18,7 @@ try:
     import jsonschema
     s = json.load(open('/root/.vp/EVIDENCE.schema.json'))
     for c in m['checks']:
-        jsonschema.validate(json.load(open(c['evidence_file'])), s)
+        jsonschema.validate(json.load(open(os.path.join(HERE, 'evidence', c['property_id'] + '.json'))), s)
     print('evidence valid')
 except ImportError:
     print('jsonschema not available here (run with python3-vt)')
